@@ -597,7 +597,8 @@ def run_ambient(ctx, hook):
 def run(ctx):
     ctx.note('rule', 'one case = one constructed partition (dimension x shape incl. length-1 axes x per-side '
                      'nodes_on_bdry flags x limit class x uniform/non-uniform x repetition); each case is followed by '
-                     '7 located points, random index expressions and the structural operations; distinct = distinct '
+                     '7 located points, random index expressions, the structural operations (incl. insert / append of several parts of mixed '
+                     'dimension) and the private-state probes (read twice, shared grid, writes into returned arrays); distinct = distinct '
                      '(class, shape, flags, repetition)')
     cov = cover.Cover()
     for m in ('boundary_cell_fractions', 'cell_sizes_vecs', 'cell_sides', '__getitem__', 'insert', 'squeeze', 'index', 'cell_boundary_vecs'):
